@@ -167,6 +167,26 @@ func streamProto(c *Ctx) {
 		if _, isIW := tx.UnmarshalIndexWrapper(raw); isIW {
 			c.violate("C19", "", "a blob transaction was recognised as an index wrapper", "", []string{op})
 		}
+		// no decoder may depend on what was decoded before it: decode a larger "poison" value of each kind,
+		// then decode this encoding again and compare with the first result
+		if c.rng.Chance(1, 3) {
+			c.oracle()
+			pb1, _ := share.NewV1Blob(pool[0], bytes.Repeat([]byte{5}, 700), bytes.Repeat([]byte{3}, 20))
+			pb2, _ := share.NewV0Blob(pool[len(pool)-1], []byte{1})
+			praw, _ := tx.MarshalBlobTx([]byte("poison-inner-tx"), pb1, pb2, pb1, pb2)
+			pw, _ := tx.MarshalIndexWrapper([]byte("poison"), 1, 2, 3, 4, 5, 6, 7)
+			first := decodedStr(raw)
+			_, _, _ = tx.UnmarshalBlobTx(praw)
+			_, _ = tx.UnmarshalIndexWrapper(pw)
+			if again := decodedStr(raw); again != first {
+				c.violate("C19", "", "UnmarshalBlobTx returns a different result for the same bytes after other values were decoded", "", []string{op})
+			}
+			fw := iwStr(raw)
+			_, _ = tx.UnmarshalIndexWrapper(pw)
+			if again := iwStr(raw); again != fw {
+				c.violate("C19", "", "UnmarshalIndexWrapper returns a different result for the same bytes after other values were decoded", "", []string{op})
+			}
+		}
 		c.emit("proto iw "+hx(raw), iwStr(raw))
 		// index wrapper
 		idx := make([]uint32, c.rng.Range(0, 4))
